@@ -1088,8 +1088,11 @@ func (h *harness) replayKnown() {
 			}
 		}
 	}
-	if w, err := cpe.UnbindURI("cpe:/a:\u212a"); err == nil && w.Attr[1].V == "k" {
-		h.r.KnownSeen(uriCaseFold, `"cpe:/a:\u212a" (KELVIN SIGN) is accepted as vendor "k"`)
+	// 33457076: non-ASCII runes that lower-case to ASCII letters are rejected
+	for _, u := range []string{"cpe:/a:\u212a", "cpe:/a:x\u0130", "cpe:/a:b:c:d:e:~\u212a~a"} {
+		if w, err := cpe.UnbindURI(u); err == nil {
+			h.r.Fail("", fmt.Sprintf("UnbindURI accepts the non-ASCII URI %q -> %q", u, w.BindFS()))
+		}
 	}
 }
 
